@@ -14,7 +14,7 @@
 (***************************************************************************)
 EXTENDS Integers, Sequences, TLC
 
-Results == {0, -1}          \* Simulate::run(): 0 executed / stopped at a break, -1 illegal instruction
+Results == {0, -1, -2}      \* Simulate::run(): 0 executed, -1 illegal instruction, -2 break (riscv ebreak/ecall)
 
 \* e = [id, cpu, a, b] with a, b = [ret, digest]
 Returns(e)       == e.a.ret \in Results /\ e.b.ret \in Results
@@ -23,7 +23,7 @@ Deterministic(e) == e.a = e.b
 \* not stated here); e.top = highest 64 KiB page the simulator's memory object had to allocate
 Inside(e) == e.space = 0 \/ e.top < e.space
 StepOk(e) == Returns(e) /\ Deterministic(e) /\ Inside(e)
-Why(e) == IF ~Returns(e) THEN "result is neither executed nor illegal"
+Why(e) == IF ~Returns(e) THEN "result is neither executed, illegal nor break"
           ELSE IF ~Deterministic(e) THEN "two runs from the same state differ"
           ELSE "memory outside the simulated address space was written"
 =============================================================================
